@@ -147,6 +147,21 @@ Qed.
 Lemma finish_empty st c : cx_forward c = [] -> finish st c = c.
 Proof. intros E. unfold finish. rewrite E. reflexivity. Qed.
 
+Lemma finish_closed_nonempty st c : cx_forward c <> [] ->
+  let c1 := do_join st (cx_start_tan c) c in
+  finish_closed st c =
+  mkCtx (cx_output c1 ++ cx_forward c1 ++ [ClosePath] ++ [MoveTo (last_end (cx_backward c1))] ++
+         extend_reversed (cx_backward c1) ++ [ClosePath])
+        [] [] (cx_start_pt c1) (cx_start_norm c1) (cx_start_tan c1) (cx_last_pt c1) (cx_last_tan c1) (cx_join_thresh c1).
+Proof.
+  intros Hne. cbv zeta. unfold finish_closed.
+  destruct (cx_forward c) as [|e f]; [contradiction|].
+  f_equal. rewrite <- !app_assoc. reflexivity.
+Qed.
+
+Lemma finish_closed_empty st c : cx_forward c = [] -> finish_closed st c = c.
+Proof. intros E. unfold finish_closed. rewrite E. reflexivity. Qed.
+
 Lemma end_cap_segs st c : Forall (@is_seg T) (end_cap_els st c).
 Proof.
   unfold end_cap_els. destruct (sk_end_cap st);
@@ -253,3 +268,1198 @@ Proof.
 Qed.
 
 End Structure.
+
+(** * Part 2: geometry at the real instance *)
+Local Open Scope R_scope.
+
+Ltac sk_unfold :=
+  cbv [left_norm s_scale_v v_scale v_hypot pt_sub_v pt_add_v pt_sub v_cross v_dot v_neg v_add v_sub
+       offs along vlen dist2 rdot rcross vec aff_apply
+       aa ab ac ad ae af px py vx vy fst snd] in *;
+  rs_unfold; cbv [Q2R Qnum Qden] in *.
+
+Lemma vlen_pos t : vnonzero t -> 0 < vlen t.
+Proof.
+  destruct t as [x y]; unfold vnonzero, vlen; cbn; intros Hn.
+  apply sqrt_lt_R0. destruct Hn; nra.
+Qed.
+
+Lemma vlen_sq t : vlen t * vlen t = vx t * vx t + vy t * vy t.
+Proof. destruct t as [x y]; unfold vlen; cbn. apply sqrt_sqrt. nra. Qed.
+
+Lemma v_hypot_vlen (t : Vec2 R) : v_hypot t = vlen t.
+Proof. reflexivity. Qed.
+
+(** the model's offset points are [offs] (no guard: both sides are the same polynomial in 1/|t|) *)
+Lemma pt_sub_left_norm w t p : pt_sub_v p (left_norm w t) = offs w (-1) t p.
+Proof.
+  destruct t as [tx ty], p as [x y]. sk_unfold. set (l := sqrt (tx * tx + ty * ty)).
+  f_equal; unfold Rdiv; ring.
+Qed.
+
+Lemma pt_add_left_norm w t p : pt_add_v p (left_norm w t) = offs w 1 t p.
+Proof.
+  destruct t as [tx ty], p as [x y]. sk_unfold. set (l := sqrt (tx * tx + ty * ty)).
+  f_equal; unfold Rdiv; ring.
+Qed.
+
+(** [offs w s t p] is at distance w/2 from p, perpendicular to t, on the side of sign s *)
+Lemma offs_dist w s t p : vnonzero t -> s * s = 1 -> dist2 (offs w s t p) p = (w / 2) * (w / 2).
+Proof.
+  intros Hn Hs. pose proof (vlen_pos t Hn) as Hl. pose proof (vlen_sq t) as Hq.
+  destruct t as [tx ty], p as [x y]. unfold dist2, offs in *; cbn [px py vx vy] in *.
+  set (l := vlen _) in *.
+  replace ((x + s * (w / 2) * (- ty / l) - x) * (x + s * (w / 2) * (- ty / l) - x) +
+           (y + s * (w / 2) * (tx / l) - y) * (y + s * (w / 2) * (tx / l) - y))
+    with ((s * s) * (w / 2) * (w / 2) * ((tx * tx + ty * ty) / (l * l))) by (field; lra).
+  rewrite <- Hq, Hs. field. lra.
+Qed.
+
+Lemma offs_perp w s t p : vnonzero t -> rdot (vec p (offs w s t p)) t = 0.
+Proof.
+  intros Hn. pose proof (vlen_pos t Hn) as Hl.
+  destruct t as [tx ty], p as [x y]. unfold rdot, vec, offs in *; cbn [px py vx vy] in *.
+  set (l := vlen _) in *. field. lra.
+Qed.
+
+Lemma offs_side w s t p : vnonzero t -> rcross t (vec p (offs w s t p)) = s * (w / 2) * vlen t.
+Proof.
+  intros Hn. pose proof (vlen_pos t Hn) as Hl. pose proof (vlen_sq t) as Hq.
+  destruct t as [tx ty], p as [x y]. unfold rcross, vec, offs in *; cbn [px py vx vy] in *.
+  set (l := vlen _) in *.
+  replace (tx * (y + s * (w / 2) * (tx / l) - y) - ty * (x + s * (w / 2) * (- ty / l) - x))
+    with (s * (w / 2) * ((tx * tx + ty * ty) / l)) by (field; lra).
+  rewrite <- Hq. field. lra.
+Qed.
+
+(** moving along the unit tangent *)
+Lemma along_dot d t p q : vnonzero t -> rdot (vec p (along d t q)) t = rdot (vec p q) t + d * vlen t.
+Proof.
+  intros Hn. pose proof (vlen_pos t Hn) as Hl. pose proof (vlen_sq t) as Hq.
+  destruct t as [tx ty], p as [x y], q as [u v]. unfold rdot, vec, along in *; cbn [px py vx vy] in *.
+  set (l := vlen _) in *.
+  replace ((u + d * (tx / l) - x) * tx + (v + d * (ty / l) - y) * ty)
+    with ((u - x) * tx + (v - y) * ty + d * ((tx * tx + ty * ty) / l)) by (field; lra).
+  rewrite <- Hq. field. lra.
+Qed.
+
+Lemma along_offs_dist d w s t p : vnonzero t -> s * s = 1 ->
+  dist2 (along d t (offs w s t p)) p = (w / 2) * (w / 2) + d * d.
+Proof.
+  intros Hn Hs. pose proof (vlen_pos t Hn) as Hl. pose proof (vlen_sq t) as Hq.
+  destruct t as [tx ty], p as [x y]. unfold dist2, along, offs in *; cbn [px py vx vy] in *.
+  set (l := vlen _) in *.
+  match goal with |- ?lhs = _ =>
+    replace lhs with (((s * s) * (w / 2) * (w / 2) + d * d) * ((tx * tx + ty * ty) / (l * l))) by (field; lra)
+  end.
+  rewrite <- Hq, Hs. field. lra.
+Qed.
+
+(** ** joins: the model's [join_els] in the vocabulary of the specification *)
+Lemma join_els_spec st p0 ab th cd :
+  let X := rcross ab cd in let D := rdot ab cd in let Hy := sqrt (X * X + D * D) in
+  join_els st p0 ab th cd =
+  if Rleb D 0 || Rleb (Hy * th) (Rabs X) then
+    (piv_f st p0 X ++ fst (fst (join_core st p0 ab cd)), piv_b st p0 X ++ snd (fst (join_core st p0 ab cd)),
+     snd (join_core st p0 ab cd))
+  else ([], [], 0%Z).
+Proof.
+  cbv zeta. unfold join_els, join_core, piv_f, piv_b, miter_pt.
+  change (s_scale_v (fhalf * sk_width st / v_hypot ab)%S (mkVec2 (- vy ab)%S (vx ab))) with (left_norm (sk_width st) ab).
+  cbn [fleb fltb feqb fabs fmul fhypot fadd fpowi fatan2 fneg RS f0 f2 fofZ].
+  change (v_cross ab cd) with (rcross ab cd). change (v_dot ab cd) with (rdot ab cd).
+  rewrite !pt_sub_left_norm, !pt_add_left_norm.
+  replace (powerRZ (sk_miter_limit st) 2) with (sk_miter_limit st * sk_miter_limit st) by (unfold powerRZ; simpl; ring).
+  destruct (Rleb (rdot ab cd) 0 || Rleb _ _); [|reflexivity].
+  destruct (sk_join st); cbn [fst snd]; try reflexivity.
+  - repeat match goal with |- context [if ?b then _ else _] => destruct b end; cbn [fst snd]; reflexivity.
+  - repeat match goal with |- context [if ?b then _ else _] => destruct b end; cbn [fst snd]; reflexivity.
+Qed.
+
+Lemma hyp_is_product ab cd :
+  sqrt (rcross ab cd * rcross ab cd + rdot ab cd * rdot ab cd) = vlen ab * vlen cd.
+Proof.
+  pose proof (vlen_sq ab) as Ha. pose proof (vlen_sq cd) as Hc.
+  assert (0 <= vlen ab) by (unfold vlen; apply sqrt_pos).
+  assert (0 <= vlen cd) by (unfold vlen; apply sqrt_pos).
+  destruct ab as [ax ay], cd as [cx cy]. unfold rcross, rdot in *. cbn [vx vy] in *.
+  set (a := vlen (mkVec2 ax ay)) in *. set (c := vlen (mkVec2 cx cy)) in *.
+  replace ((ax * cy - ay * cx) * (ax * cy - ay * cx) + (ax * cx + ay * cy) * (ax * cx + ay * cy))
+    with ((a * c) * (a * c)).
+  - apply sqrt_square. nra.
+  - transitivity ((a * a) * (c * c)); [ring|]. rewrite Ha, Hc. ring.
+Qed.
+
+(* the miter point lies on both offset lines *)
+Lemma miter_on_lines w s p0 ab cd : vnonzero ab -> vnonzero cd -> rcross ab cd <> 0 ->
+  rcross ab (vec (offs w s ab p0) (miter_pt w s p0 ab cd)) = 0 /\
+  rcross cd (vec (offs w s cd p0) (miter_pt w s p0 ab cd)) = 0.
+Proof.
+  intros Ha Hc HX. pose proof (vlen_pos ab Ha) as La. pose proof (vlen_pos cd Hc) as Lc.
+  destruct ab as [ax ay], cd as [cx cy], p0 as [x y].
+  unfold miter_pt, rcross, vec, offs in *. cbn [px py vx vy] in *.
+  set (a := vlen (mkVec2 ax ay)) in *. set (c := vlen (mkVec2 cx cy)) in *.
+  split; field; lra.
+Qed.
+
+Lemma miter_kernel ax ay cx cy a c mx my s k :
+  a * a = ax * ax + ay * ay -> c * c = cx * cx + cy * cy -> s * s = 1 ->
+  ax * cy - ay * cx <> 0 ->
+  ax * my - ay * mx = s * k * a -> cx * my - cy * mx = s * k * c ->
+  (mx * mx + my * my) * (a * c + (ax * cx + ay * cy)) = k * k * (2 * (a * c)).
+Proof.
+  intros Qa Qc Hs HX E1 E2.
+  set (X := ax * cy - ay * cx) in *. set (D := ax * cx + ay * cy) in *.
+  assert (Hmx : X * mx = s * k * (a * cx - c * ax)).
+  { replace (X * mx) with (cx * (ax * my - ay * mx) - ax * (cx * my - cy * mx)) by (unfold X; ring).
+    rewrite E1, E2. ring. }
+  assert (Hmy : X * my = s * k * (a * cy - c * ay)).
+  { replace (X * my) with (cy * (ax * my - ay * mx) - ay * (cx * my - cy * mx)) by (unfold X; ring).
+    rewrite E1, E2. ring. }
+  assert (HX2 : X * X = (a * c - D) * (a * c + D)).
+  { transitivity ((a * a) * (c * c) - D * D); [rewrite Qa, Qc; unfold X, D; ring | ring]. }
+  assert (Hne : a * c - D <> 0).
+  { intros E. rewrite E in HX2. assert (X * X = 0) by lra. apply HX. nra. }
+  assert (Hm : X * X * (mx * mx + my * my) = k * k * (2 * (a * c)) * (a * c - D)).
+  { replace (X * X * (mx * mx + my * my)) with ((X * mx) * (X * mx) + (X * my) * (X * my)) by ring.
+    rewrite Hmx, Hmy.
+    transitivity ((s * s) * (k * k) * ((a * a) * (cx * cx + cy * cy) - 2 * (a * c) * D + (c * c) * (ax * ax + ay * ay))).
+    - unfold D; ring.
+    - rewrite Hs, <- Qa, <- Qc. ring. }
+  rewrite HX2 in Hm.
+  apply (Rmult_eq_reg_l (a * c - D)); [|exact Hne]. lra.
+Qed.
+
+(** distance of the miter point from the vertex: |M - p0|^2 (|ab||cd| + ab.cd) = (w/2)^2 2 |ab||cd| *)
+Lemma miter_dist w s p0 ab cd : vnonzero ab -> vnonzero cd -> rcross ab cd <> 0 -> s * s = 1 ->
+  dist2 (miter_pt w s p0 ab cd) p0 * (vlen ab * vlen cd + rdot ab cd) =
+  (w / 2) * (w / 2) * (2 * (vlen ab * vlen cd)).
+Proof.
+  intros Ha Hc HX Hs.
+  destruct (miter_on_lines w s p0 ab cd Ha Hc HX) as [L1 L2].
+  pose proof (offs_side w s ab p0 Ha) as S1. pose proof (offs_side w s cd p0 Hc) as S2.
+  pose proof (vlen_sq ab) as Qa. pose proof (vlen_sq cd) as Qc.
+  set (M := miter_pt w s p0 ab cd) in *.
+  set (o1 := offs w s ab p0) in *. set (o2 := offs w s cd p0) in *.
+  destruct ab as [ax ay], cd as [cx cy], p0 as [x y], M as [mx my], o1 as [ux uy], o2 as [vx' vy'].
+  unfold dist2, rcross, rdot, vec in *. cbn [px py vx vy] in *.
+  apply miter_kernel with (s := s) (k := w / 2); auto; lra.
+Qed.
+
+Lemma cauchy_strict ab cd : vnonzero ab -> vnonzero cd -> rcross ab cd <> 0 ->
+  0 < vlen ab * vlen cd + rdot ab cd /\ 0 < vlen ab * vlen cd - rdot ab cd.
+Proof.
+  intros Ha Hc HX. pose proof (vlen_pos ab Ha) as La. pose proof (vlen_pos cd Hc) as Lc.
+  pose proof (vlen_sq ab) as Qa. pose proof (vlen_sq cd) as Qc.
+  destruct ab as [ax ay], cd as [cx cy]. unfold rcross, rdot in *. cbn [vx vy] in *.
+  set (a := vlen (mkVec2 ax ay)) in *. set (c := vlen (mkVec2 cx cy)) in *.
+  assert (HX2 : (ax * cy - ay * cx) * (ax * cy - ay * cx) = (a * c - (ax * cx + ay * cy)) * (a * c + (ax * cx + ay * cy))).
+  { transitivity ((a * a) * (c * c) - (ax * cx + ay * cy) * (ax * cx + ay * cy)); [rewrite Qa, Qc; ring | ring]. }
+  assert (0 < (ax * cy - ay * cx) * (ax * cy - ay * cx)) by nra.
+  assert (0 < a * c) by nra.
+  nra.
+Qed.
+
+(** whenever the miter point is emitted (2 hypot < (hypot + dot) limit^2) it is within limit * w/2 of the vertex *)
+Lemma miter_within_limit w s p0 ab cd ml : vnonzero ab -> vnonzero cd -> rcross ab cd <> 0 -> s * s = 1 ->
+  2 * (vlen ab * vlen cd) < (vlen ab * vlen cd + rdot ab cd) * (ml * ml) ->
+  dist2 (miter_pt w s p0 ab cd) p0 < (w / 2) * (w / 2) * (ml * ml) \/ w = 0.
+Proof.
+  intros Ha Hc HX Hs Hlim.
+  pose proof (miter_dist w s p0 ab cd Ha Hc HX Hs) as Hd.
+  destruct (cauchy_strict ab cd Ha Hc HX) as [Hp _].
+  destruct (Req_dec w 0) as [->|Hw]; [right; reflexivity|left].
+  set (d := dist2 _ _) in *. set (h := vlen ab * vlen cd) in *. set (D := rdot ab cd) in *.
+  assert (0 < (w / 2) * (w / 2)) by nra.
+  apply (Rmult_lt_reg_r (h + D)); [exact Hp|]. rewrite Hd. nra.
+Qed.
+
+(** which side is the outer one: along the incoming direction, the new offset point lies ahead of the
+    old one on the side of sign s iff  - s * cross > 0  (s = -1 forward, s = 1 backward) *)
+Lemma offset_gap w s p0 ab cd : vnonzero ab -> vnonzero cd ->
+  rdot ab (vec (offs w s ab p0) (offs w s cd p0)) = - s * (w / 2) * rcross ab cd / vlen cd.
+Proof.
+  intros Ha Hc. pose proof (vlen_pos ab Ha) as La. pose proof (vlen_pos cd Hc) as Lc.
+  destruct ab as [ax ay], cd as [cx cy], p0 as [x y].
+  unfold rdot, rcross, vec, offs in *. cbn [px py vx vy] in *.
+  set (a := vlen (mkVec2 ax ay)) in *. set (c := vlen (mkVec2 cx cy)) in *.
+  field. lra.
+Qed.
+
+(** * Part 3: the state between two elements, and what every element adds (real instance) *)
+
+Lemma pt_neb_vnonzero (p q : Point R) : pt_neb p q = true -> vnonzero (pt_sub p q).
+Proof.
+  destruct p as [x y], q as [u v]. unfold pt_neb, pt_eqb, vnonzero, pt_sub. cbn [px py vx vy feqb fsub RS].
+  intros Hn. apply negb_true_iff, andb_false_iff in Hn.
+  destruct Hn as [Hn|Hn]; apply Reqb_false in Hn; [left|right]; lra.
+Qed.
+
+Lemma pt_neb_vnonzero_sym (p q : Point R) : pt_neb p q = true -> vnonzero (pt_sub q p).
+Proof.
+  destruct p as [x y], q as [u v]. unfold pt_neb, pt_eqb, vnonzero, pt_sub. cbn [px py vx vy feqb fsub RS].
+  intros Hn. apply negb_true_iff, andb_false_iff in Hn.
+  destruct Hn as [Hn|Hn]; apply Reqb_false in Hn; [left|right]; lra.
+Qed.
+
+Lemma pt_neb_sym (p q : Point R) : pt_neb p q = pt_neb q p.
+Proof.
+  destruct p as [x y], q as [u v]. unfold pt_neb, pt_eqb. cbn [px py feqb RS]. f_equal.
+  unfold Reqb. destruct (Req_EM_T x u), (Req_EM_T u x), (Req_EM_T y v), (Req_EM_T v y); try reflexivity; congruence.
+Qed.
+
+Lemma pt_neb_false_eq (p q : Point R) : pt_neb p q = false -> p = q.
+Proof.
+  destruct p as [x y], q as [u v]. unfold pt_neb, pt_eqb. cbn [px py feqb RS].
+  intros Hn. apply negb_false_iff, andb_true_iff in Hn. destruct Hn as [A B].
+  apply Reqb_true in A, B. subst; reflexivity.
+Qed.
+
+Lemma last_end_snoc {T} `{Scalar T} (l : list (PathEl T)) e : last_end (l ++ [e]) = el_end_or e.
+Proof. unfold last_end. rewrite last_last. reflexivity. Qed.
+
+Lemma last_end_app_ne {T} `{Scalar T} (l m : list (PathEl T)) : m <> [] -> last_end (l ++ m) = last_end m.
+Proof.
+  intros Hm. destruct (exists_last Hm) as (m' & e & ->).
+  rewrite app_assoc, !last_end_snoc. reflexivity.
+Qed.
+
+Section GInv.
+Variable st : StrokeStyle R.
+Let w := sk_width st.
+Variable P : Point R -> Prop.
+Variable V : list (Point R).
+
+Hypothesis HP_offs : forall p t s, In p V -> vnonzero t -> s = 1 \/ s = -1 -> P (offs w s t p).
+Hypothesis HP_piv : forall p, In p V -> P p.
+Hypothesis HP_join : forall p0 ab cd, In p0 V -> vnonzero ab -> vnonzero cd ->
+  all_ends P (fst (fst (join_core st p0 ab cd))) /\ all_ends P (snd (fst (join_core st p0 ab cd))).
+Hypothesis HP_endcap : forall p t, In p V -> vnonzero t -> all_ends P (end_cap_at st p t).
+Hypothesis HP_startcap : forall p t, In p V -> vnonzero t -> all_ends P (start_cap_at st p t).
+
+Definition g_state (c : StrokeCtx R) : Prop :=
+  (cx_forward c = [] /\ cx_backward c = [] /\ cx_last_pt c = cx_start_pt c) \/
+  (exists f b,
+     cx_forward c = MoveTo (offs w (-1) (cx_start_tan c) (cx_start_pt c)) :: f /\
+     cx_backward c = MoveTo (offs w 1 (cx_start_tan c) (cx_start_pt c)) :: b /\
+     last_end (cx_forward c) = offs w (-1) (cx_last_tan c) (cx_last_pt c) /\
+     last_end (cx_backward c) = offs w 1 (cx_last_tan c) (cx_last_pt c) /\
+     cx_start_norm c = left_norm w (cx_start_tan c) /\
+     vnonzero (cx_start_tan c) /\ vnonzero (cx_last_tan c) /\
+     Forall (@is_seg R) f /\ Forall (@is_seg R) b /\
+     all_ends P (cx_forward c) /\ all_ends P (cx_backward c)).
+
+Record GInv (c : StrokeCtx R) : Prop := {
+  g_out : all_ends P (cx_output c);
+  g_lp : In (cx_last_pt c) V;
+  g_sp : In (cx_start_pt c) V;
+  g_st : g_state c }.
+
+Lemma all_ends_app (a b : list (PathEl R)) : all_ends P a -> all_ends P b -> all_ends P (a ++ b).
+Proof. apply Forall_app_intro. Qed.
+
+Lemma piv_ends p0 X : In p0 V -> all_ends P (piv_f st p0 X) /\ all_ends P (piv_b st p0 X).
+Proof.
+  intros Hin. unfold piv_f, piv_b.
+  destruct (sk_inner_pivot st), (Rltb 0 X), (Rltb X 0); split; repeat constructor; cbn; auto.
+Qed.
+
+Lemma join_els_ends p0 ab th cd : In p0 V -> vnonzero ab -> vnonzero cd ->
+  all_ends P (fst (fst (join_els st p0 ab th cd))) /\ all_ends P (snd (fst (join_els st p0 ab th cd))).
+Proof.
+  intros Hin Ha Hc. rewrite join_els_spec.
+  destruct (Rleb _ _ || Rleb _ _); cbn [fst snd]; [|split; constructor].
+  destruct (piv_ends p0 (rcross ab cd) Hin) as [Pf Pb].
+  destruct (HP_join p0 ab cd Hin Ha Hc) as [Jf Jb].
+  split; apply all_ends_app; assumption.
+Qed.
+
+Lemma join_els_is_segs p0 ab th cd :
+  Forall (@is_seg R) (fst (fst (join_els st p0 ab th cd))) /\ Forall (@is_seg R) (snd (fst (join_els st p0 ab th cd))).
+Proof. apply join_els_segs. Qed.
+
+(** [line_step] in closed form *)
+Lemma line_step_empty t p1 c : cx_forward c = [] -> cx_backward c = [] ->
+  line_step st t p1 c =
+  mkCtx (cx_output c)
+        [MoveTo (offs w (-1) t (cx_last_pt c)); LineTo (offs w (-1) t p1)]
+        [MoveTo (offs w 1 t (cx_last_pt c)); LineTo (offs w 1 t p1)]
+        (cx_start_pt c) (left_norm w t) t p1 t (cx_join_thresh c).
+Proof.
+  intros Ef Eb. unfold line_step, do_join. rewrite Ef, Eb. unfold set_last_tan, do_line. cbn.
+  rewrite !pt_sub_left_norm, !pt_add_left_norm. reflexivity.
+Qed.
+
+Lemma line_step_nonempty t p1 c : cx_forward c <> [] ->
+  let j := join_els st (cx_last_pt c) (cx_last_tan c) (cx_join_thresh c) t in
+  line_step st t p1 c =
+  mkCtx (cx_output c)
+        (cx_forward c ++ fst (fst j) ++ [LineTo (offs w (-1) t p1)])
+        (cx_backward c ++ snd (fst j) ++ [LineTo (offs w 1 t p1)])
+        (cx_start_pt c) (cx_start_norm c) (cx_start_tan c) p1 t (cx_join_thresh c).
+Proof.
+  intros Hne. cbv zeta. unfold line_step, do_join.
+  destruct (cx_forward c) as [|e f] eqn:Ef; [contradiction|].
+  destruct (join_els st (cx_last_pt c) (cx_last_tan c) (cx_join_thresh c) t) as [[jf jb] tag].
+  unfold set_last_tan, do_line. cbn.
+  rewrite !pt_sub_left_norm, !pt_add_left_norm, <- !app_assoc. reflexivity.
+Qed.
+
+Lemma line_step_ginv t p1 c : GInv c -> In p1 V -> t = pt_sub p1 (cx_last_pt c) -> vnonzero t ->
+  GInv (line_step st t p1 c) /\ cx_forward (line_step st t p1 c) <> [].
+Proof.
+  intros [Go Glp Gsp Gs] Hin Ht Hn.
+  destruct Gs as [(Ef & Eb & Els)|(f & b & Ef & Eb & Lf & Lb & Sn & Nst & Nlt & Sf & Sb & Pf & Pb)].
+  - rewrite (line_step_empty t p1 c Ef Eb). split; [|discriminate].
+    constructor; cbn; auto.
+    right. eexists _, _. cbn. rewrite <- Els.
+    repeat split; try reflexivity; auto; repeat constructor; cbn; auto.
+  - assert (Hne : cx_forward c <> []) by (rewrite Ef; discriminate).
+    rewrite (line_step_nonempty t p1 c Hne). cbv zeta.
+    destruct (join_els_ends (cx_last_pt c) (cx_last_tan c) (cx_join_thresh c) t Glp Nlt Hn) as [Jf Jb].
+    destruct (join_els_is_segs (cx_last_pt c) (cx_last_tan c) (cx_join_thresh c) t) as [Zf Zb].
+    set (j := join_els st (cx_last_pt c) (cx_last_tan c) (cx_join_thresh c) t) in *.
+    split; [|cbn; rewrite Ef; discriminate].
+    constructor; cbn; auto.
+    right. exists (f ++ fst (fst j) ++ [LineTo (offs w (-1) t p1)]), (b ++ snd (fst j) ++ [LineTo (offs w 1 t p1)]).
+    rewrite Ef, Eb.
+    cbn [app cx_output cx_forward cx_backward cx_start_pt cx_start_norm cx_start_tan cx_last_pt cx_last_tan cx_join_thresh].
+    repeat split; auto.
+    + rewrite app_comm_cons, app_assoc, last_end_snoc. reflexivity.
+    + rewrite app_comm_cons, app_assoc, last_end_snoc. reflexivity.
+    + repeat apply Forall_app_intro; auto. repeat constructor.
+    + repeat apply Forall_app_intro; auto. repeat constructor.
+    + rewrite app_comm_cons, <- Ef. repeat apply all_ends_app; auto. repeat constructor; cbn; auto.
+    + rewrite app_comm_cons, <- Eb. repeat apply all_ends_app; auto. repeat constructor; cbn; auto.
+Qed.
+
+Definition not_close (e : PathEl R) : Prop := e <> ClosePath.
+
+Lemma el_end_or_ok e : not_close e -> end_ok P e -> P (el_end_or e).
+Proof. destruct e; unfold not_close, end_ok, el_end_or; cbn; auto. congruence. Qed.
+
+Lemma rev_el_ends e0 e1 : not_close e0 -> end_ok P e0 -> all_ends P (rev_el e0 e1).
+Proof.
+  intros Hn He. pose proof (el_end_or_ok e0 Hn He) as Hp.
+  destruct e1; cbn; repeat constructor; exact Hp.
+Qed.
+
+Lemma ext_rev_ends l : Forall not_close l -> all_ends P l -> all_ends P (extend_reversed l).
+Proof.
+  induction l as [|e0 [|e1 r] IH]; intros Hn Hp; cbn; try constructor.
+  inversion Hn as [|? ? Hn0 Hn1]; inversion Hp as [|? ? Hp0 Hp1]; subst.
+  apply all_ends_app; [apply IH; assumption | apply rev_el_ends; assumption].
+Qed.
+
+Lemma last_end_ok l : l <> [] -> Forall not_close l -> all_ends P l -> P (last_end l).
+Proof.
+  intros Hne Hn Hp. destruct (exists_last Hne) as (l' & e & ->).
+  rewrite last_end_snoc. apply Forall_app in Hn, Hp. destruct Hn as [_ Hn], Hp as [_ Hp].
+  inversion Hn; inversion Hp; subst. apply el_end_or_ok; assumption.
+Qed.
+
+Lemma seg_not_close e : is_seg e -> not_close e.
+Proof. destruct e; cbn; unfold not_close; try contradiction; discriminate. Qed.
+
+Lemma shape_not_close p segs : Forall (@is_seg R) segs -> Forall not_close (MoveTo p :: segs).
+Proof.
+  intros Hs. constructor; [discriminate|].
+  eapply Forall_impl; [|exact Hs]. intros; apply seg_not_close; assumption.
+Qed.
+
+Lemma do_join_nonempty tan c : cx_forward c <> [] ->
+  let j := join_els st (cx_last_pt c) (cx_last_tan c) (cx_join_thresh c) tan in
+  do_join st tan c =
+  mkCtx (cx_output c) (cx_forward c ++ fst (fst j)) (cx_backward c ++ snd (fst j))
+        (cx_start_pt c) (cx_start_norm c) (cx_start_tan c) (cx_last_pt c) (cx_last_tan c) (cx_join_thresh c).
+Proof.
+  intros Hne. cbv zeta. unfold do_join.
+  destruct (cx_forward c) as [|e f] eqn:Ef; [contradiction|].
+  destruct (join_els st (cx_last_pt c) (cx_last_tan c) (cx_join_thresh c) tan) as [[jf jb] tag].
+  reflexivity.
+Qed.
+
+Lemma end_cap_els_at c : last_end (cx_backward c) = offs w 1 (cx_last_tan c) (cx_last_pt c) ->
+  end_cap_els st c = end_cap_at st (cx_last_pt c) (cx_last_tan c).
+Proof. intros E. unfold end_cap_els, end_cap_at. rewrite E. reflexivity. Qed.
+
+Lemma start_cap_els_at c : cx_start_norm c = left_norm w (cx_start_tan c) ->
+  start_cap_els st c = start_cap_at st (cx_start_pt c) (cx_start_tan c).
+Proof. intros E. unfold start_cap_els, start_cap_at. rewrite E. reflexivity. Qed.
+
+Lemma finish_ginv c : GInv c ->
+  all_ends P (cx_output (finish st c)) /\ cx_forward (finish st c) = [] /\ cx_backward (finish st c) = [] /\
+  cx_start_pt (finish st c) = cx_start_pt c /\ cx_last_pt (finish st c) = cx_last_pt c.
+Proof.
+  intros [Go Glp Gsp Gs].
+  destruct Gs as [(Ef & Eb & Els)|(f & b & Ef & Eb & Lf & Lb & Sn & Nst & Nlt & Sf & Sb & Pf & Pb)].
+  - rewrite (finish_empty st c Ef). auto.
+  - assert (Hne : cx_forward c <> []) by (rewrite Ef; discriminate).
+    rewrite (finish_nonempty st c Hne). cbn. repeat split; auto.
+    rewrite (end_cap_els_at c Lb), (start_cap_els_at c Sn).
+    repeat apply all_ends_app; auto.
+    apply ext_rev_ends; auto. rewrite Eb. apply shape_not_close; assumption.
+Qed.
+
+Lemma finish_closed_ginv c : GInv c -> cx_last_pt c = cx_start_pt c -> GInv (finish_closed st c).
+Proof.
+  intros Hg Els. pose proof Hg as [Go Glp Gsp Gs].
+  destruct Gs as [(Ef & Eb & _)|(f & b & Ef & Eb & Lf & Lb & Sn & Nst & Nlt & Sf & Sb & Pf & Pb)].
+  - rewrite (finish_closed_empty st c Ef). exact Hg.
+  - assert (Hne : cx_forward c <> []) by (rewrite Ef; discriminate).
+    rewrite (finish_closed_nonempty st c Hne). cbv zeta.
+    rewrite (do_join_nonempty (cx_start_tan c) c Hne). cbv zeta.
+    destruct (join_els_ends (cx_last_pt c) (cx_last_tan c) (cx_join_thresh c) (cx_start_tan c) Glp Nlt Nst) as [Jf Jb].
+    destruct (join_els_is_segs (cx_last_pt c) (cx_last_tan c) (cx_join_thresh c) (cx_start_tan c)) as [Zf Zb].
+    set (j := join_els st (cx_last_pt c) (cx_last_tan c) (cx_join_thresh c) (cx_start_tan c)) in *.
+    cbn [cx_output cx_forward cx_backward cx_start_pt cx_start_norm cx_start_tan cx_last_pt cx_last_tan cx_join_thresh].
+    assert (Hnc : Forall not_close (cx_backward c ++ snd (fst j))).
+    { rewrite Eb. change (MoveTo (offs w 1 (cx_start_tan c) (cx_start_pt c)) :: b) with ([MoveTo (offs w 1 (cx_start_tan c) (cx_start_pt c))] ++ b).
+      rewrite <- app_assoc. apply shape_not_close. apply Forall_app_intro; assumption. }
+    assert (Hpb : all_ends P (cx_backward c ++ snd (fst j))) by (apply all_ends_app; assumption).
+    constructor; cbn [cx_output cx_forward cx_backward cx_start_pt cx_start_norm cx_start_tan cx_last_pt cx_last_tan]; auto.
+    + repeat apply all_ends_app; auto.
+      * repeat constructor.
+      * constructor; [|constructor]. unfold end_ok; cbn.
+        apply last_end_ok; auto. rewrite Eb; discriminate.
+      * apply ext_rev_ends; assumption.
+      * repeat constructor.
+    + left. auto.
+Qed.
+
+(** one element: MoveTo / LineTo / ClosePath whose point belongs to [V] *)
+Lemma stroke_step_ginv c e c' : GInv c -> (forall p, In p (el_pts e) -> In p V) ->
+  stroke_step st c e = Some c' -> GInv c'.
+Proof.
+  intros Hg Hin. unfold stroke_step. destruct e; try discriminate.
+  - intros [= <-]. destruct (finish_ginv c Hg) as (Ho & Ef & Eb & _ & _).
+    assert (In p V) by (apply Hin; cbn; auto).
+    constructor; cbn; auto. left. auto.
+  - destruct (pt_neb p (cx_last_pt c)) eqn:En; intros [= <-]; [|exact Hg].
+    apply line_step_ginv; auto. + apply Hin; cbn; auto. + apply pt_neb_vnonzero; exact En.
+  - intros [= <-]. pose proof Hg as [Go Glp Gsp Gs].
+    destruct (pt_neb (cx_last_pt c) (cx_start_pt c)) eqn:En.
+    + assert (Hn : vnonzero (pt_sub (cx_start_pt c) (cx_last_pt c))) by (apply pt_neb_vnonzero_sym; exact En).
+      destruct (line_step_ginv (pt_sub (cx_start_pt c) (cx_last_pt c)) (cx_start_pt c) c Hg Gsp eq_refl Hn) as [Hg1 _].
+      apply finish_closed_ginv; [exact Hg1|].
+      unfold line_step, do_line. cbn.
+      unfold do_join. destruct (cx_forward c); [reflexivity|].
+      destruct (join_els _ _ _ _ _) as [[? ?] ?]. reflexivity.
+    + apply finish_closed_ginv; [exact Hg|]. apply pt_neb_false_eq; exact En.
+Qed.
+
+Lemma stroke_loop_ginv els : forall c c', GInv c -> (forall e p, In e els -> In p (el_pts e) -> In p V) ->
+  stroke_loop st c els = Some c' -> GInv c'.
+Proof.
+  induction els as [|e r IH]; cbn; intros c c' Hg Hin.
+  - intros [= <-]; exact Hg.
+  - destruct (stroke_step st c e) as [c1|] eqn:E1; [|discriminate].
+    intros Hl. apply (IH c1 c'); [|intros; eapply Hin; eauto|exact Hl].
+    eapply stroke_step_ginv; eauto.
+Qed.
+
+Lemma ctx_init_ginv tol : In pt_origin V -> GInv (ctx_init st tol).
+Proof. intros Ho. constructor; cbn; auto. constructor. left. auto. Qed.
+
+(** every end point of the outline satisfies [P] *)
+Lemma stroke_all_ends els tol out : In pt_origin V ->
+  (forall e p, In e els -> In p (el_pts e) -> In p V) ->
+  stroke_undashed els st tol = Some out -> all_ends P out.
+Proof.
+  intros Ho Hin. unfold stroke_undashed.
+  destruct (stroke_loop st (ctx_init st tol) els) as [c|] eqn:El; [|discriminate].
+  intros [= <-].
+  pose proof (stroke_loop_ginv els _ _ (ctx_init_ginv tol Ho) Hin El) as Hg.
+  apply (finish_ginv c Hg).
+Qed.
+End GInv.
+
+(** ** caps *)
+Ltac pts_eq :=
+  repeat match goal with
+  | |- @eq (list _) (_ :: _) (_ :: _) => f_equal
+  | |- @eq (PathEl _) (LineTo _) (LineTo _) => f_equal
+  | |- @eq (PathEl _) (MoveTo _) (MoveTo _) => f_equal
+  | |- @eq (Point _) (mkPoint _ _) (mkPoint _ _) => f_equal
+  end.
+
+Lemma square_cap_end w t c :
+  square_cap_els false c (pt_sub c (offs w 1 t c)) =
+  [LineTo (along (w / 2) t (offs w (-1) t c)); LineTo (along (w / 2) t (offs w 1 t c)); LineTo (offs w 1 t c)].
+Proof.
+  destruct t as [tx ty], c as [x y].
+  unfold square_cap_els. cbv [app].
+  sk_unfold. set (l := sqrt (tx * tx + ty * ty)).
+  pts_eq; unfold Rdiv; ring.
+Qed.
+
+Lemma square_cap_start w t c :
+  square_cap_els true c (left_norm w t) =
+  [LineTo (along (- (w / 2)) t (offs w 1 t c)); LineTo (along (- (w / 2)) t (offs w (-1) t c)); ClosePath].
+Proof.
+  destruct t as [tx ty], c as [x y].
+  unfold square_cap_els. cbv [app].
+  sk_unfold. set (l := sqrt (tx * tx + ty * ty)).
+  pts_eq; unfold Rdiv; ring.
+Qed.
+
+(** ** every outline vertex is within the style's reach of a source vertex (bevel / miter joins, butt / square caps) *)
+Lemma reach2_ge_half st : (sk_width st / 2) * (sk_width st / 2) <= reach2 st.
+Proof.
+  unfold reach2. cbv zeta. set (k := sk_width st / 2).
+  match goal with |- _ <= _ * Rmax 1 ?m => pose proof (Rmax_l 1 m); set (mm := Rmax 1 m) in * end.
+  assert (0 <= k * k) by nra. nra.
+Qed.
+
+Lemma reach2_ge_miter st : sk_join st = JoinMiter ->
+  (sk_width st / 2) * (sk_width st / 2) * (sk_miter_limit st * sk_miter_limit st) <= reach2 st.
+Proof.
+  intros Hj. unfold reach2. cbv zeta. rewrite Hj. set (k := sk_width st / 2).
+  match goal with |- _ <= _ * Rmax 1 (Rmax ?a ?b) =>
+    pose proof (Rmax_r 1 (Rmax a b)); pose proof (Rmax_l a b); set (mm := Rmax 1 (Rmax a b)) in *; set (m2 := Rmax a b) in * end.
+  assert (0 <= k * k) by nra. nra.
+Qed.
+
+Lemma reach2_ge_square st : is_square (sk_start_cap st) || is_square (sk_end_cap st) = true ->
+  2 * ((sk_width st / 2) * (sk_width st / 2)) <= reach2 st.
+Proof.
+  intros Hs. unfold reach2. cbv zeta. rewrite Hs. set (k := sk_width st / 2).
+  match goal with |- _ <= _ * Rmax 1 (Rmax ?a ?b) =>
+    pose proof (Rmax_r 1 (Rmax a b)); pose proof (Rmax_r a b); set (mm := Rmax 1 (Rmax a b)) in *; set (m2 := Rmax a b) in * end.
+  assert (0 <= k * k) by nra. nra.
+Qed.
+
+Lemma dist2_self p : dist2 p p = 0.
+Proof. unfold dist2. ring. Qed.
+
+Section Radius.
+Variable st : StrokeStyle R.
+Variable V : list (Point R).
+Hypothesis Hw : 0 < sk_width st.
+Let w := sk_width st.
+Let r2 := reach2 st.
+
+Lemma near_offs p t s : In p V -> vnonzero t -> s = 1 \/ s = -1 -> near V r2 (offs w s t p).
+Proof.
+  intros Hin Hn Hs. exists p. split; [exact Hin|].
+  rewrite offs_dist; [apply reach2_ge_half | exact Hn | destruct Hs; subst; ring].
+Qed.
+
+Lemma near_self p : In p V -> near V r2 p.
+Proof.
+  intros Hin. exists p. split; [exact Hin|]. rewrite dist2_self.
+  pose proof (reach2_ge_half st). unfold r2. nra.
+Qed.
+
+Lemma near_miter p0 ab cd s : In p0 V -> vnonzero ab -> vnonzero cd -> rcross ab cd <> 0 -> s = 1 \/ s = -1 ->
+  sk_join st = JoinMiter ->
+  2 * sqrt (rcross ab cd * rcross ab cd + rdot ab cd * rdot ab cd) <
+  (sqrt (rcross ab cd * rcross ab cd + rdot ab cd * rdot ab cd) + rdot ab cd) * (sk_miter_limit st * sk_miter_limit st) ->
+  near V r2 (miter_pt w s p0 ab cd).
+Proof.
+  intros Hin Ha Hc HX Hs Hj Hlim. rewrite hyp_is_product in Hlim.
+  exists p0. split; [exact Hin|].
+  assert (Hss : s * s = 1) by (destruct Hs; subst; ring).
+  destruct (miter_within_limit w s p0 ab cd (sk_miter_limit st) Ha Hc HX Hss Hlim) as [Hd|Hd].
+  - pose proof (reach2_ge_miter st Hj). unfold r2, w in *. lra.
+  - unfold w in Hd. lra.
+Qed.
+
+Lemma radius_join p0 ab cd : sk_join st <> JoinRound -> In p0 V -> vnonzero ab -> vnonzero cd ->
+  all_ends (near V r2) (fst (fst (join_core st p0 ab cd))) /\ all_ends (near V r2) (snd (fst (join_core st p0 ab cd))).
+Proof.
+  intros Hj Hin Ha Hc. unfold join_core. cbv zeta. fold w.
+  destruct (sk_join st) eqn:Ej; [| |congruence].
+  - cbn [fst snd]. split; repeat constructor; unfold end_ok; cbn; apply near_offs; auto.
+  - destruct (Rltb_spec (2 * sqrt (rcross ab cd * rcross ab cd + rdot ab cd * rdot ab cd))
+                        ((sqrt (rcross ab cd * rcross ab cd + rdot ab cd * rdot ab cd) + rdot ab cd) *
+                         (sk_miter_limit st * sk_miter_limit st))) as [Hlim|Hlim].
+    + destruct (Rltb_spec 0 (rcross ab cd)) as [Hx|Hx]; [|destruct (Rltb_spec (rcross ab cd) 0) as [Hx'|Hx']];
+        cbn [fst snd]; split; repeat constructor; unfold end_ok; cbn;
+        try (apply near_offs; auto); apply near_miter; auto; lra.
+    + cbn [fst snd]. split; repeat constructor; unfold end_ok; cbn; apply near_offs; auto.
+Qed.
+
+Lemma radius_endcap p t : sk_end_cap st <> CapRound -> In p V -> vnonzero t -> all_ends (near V r2) (end_cap_at st p t).
+Proof.
+  intros Hc Hin Hn. unfold end_cap_at. fold w. destruct (sk_end_cap st) eqn:Ec; [| |congruence].
+  - repeat constructor. unfold end_ok; cbn. apply near_offs; auto.
+  - rewrite square_cap_end.
+    assert (Hsq : 2 * ((w / 2) * (w / 2)) <= r2).
+    { apply reach2_ge_square. rewrite Ec. cbn. apply orb_true_r. }
+    repeat constructor; unfold end_ok; cbn; try (apply near_offs; auto);
+      exists p; (split; [exact Hin|]); rewrite along_offs_dist; auto; try ring; lra.
+Qed.
+
+Lemma radius_startcap p t : sk_start_cap st <> CapRound -> In p V -> vnonzero t -> all_ends (near V r2) (start_cap_at st p t).
+Proof.
+  intros Hc Hin Hn. unfold start_cap_at. fold w. destruct (sk_start_cap st) eqn:Ec; [| |congruence].
+  - repeat constructor.
+  - rewrite square_cap_start.
+    assert (Hsq : 2 * ((w / 2) * (w / 2)) <= r2).
+    { apply reach2_ge_square. rewrite Ec. reflexivity. }
+    repeat constructor; unfold end_ok; cbn;
+      exists p; (split; [exact Hin|]); rewrite along_offs_dist; auto; try ring; lra.
+Qed.
+End Radius.
+
+Theorem outline_within_radius st els tol out :
+  0 < sk_width st -> sk_join st <> JoinRound -> sk_start_cap st <> CapRound -> sk_end_cap st <> CapRound ->
+  stroke_undashed els st tol = Some out ->
+  all_ends (near (pt_origin :: flat_map (@el_pts R) els) (reach2 st)) out.
+Proof.
+  intros Hw Hj Hsc Hec Hs.
+  set (V := pt_origin :: flat_map (@el_pts R) els).
+  apply (stroke_all_ends st (near V (reach2 st)) V) with (els := els) (tol := tol); auto.
+  - intros; apply near_offs; auto.
+  - intros; apply near_self; auto.
+  - intros; apply radius_join; auto.
+  - intros; apply radius_endcap; auto.
+  - intros; apply radius_startcap; auto.
+  - left; reflexivity.
+  - intros e p He Hp. right. apply in_flat_map. exists e. split; assumption.
+Qed.
+
+(** ** the forward and backward paths of a polyline are the -/+ offsets of its edges, joined by [join_els] *)
+Section Sides.
+Variable st : StrokeStyle R.
+Let w := sk_width st.
+
+Lemma pt_sub_vec (p q : Point R) : pt_sub p q = vec q p.
+Proof. reflexivity. Qed.
+
+Lemma lines_nonempty ps : forall c, cx_forward c <> [] ->
+  stroke_loop st c (map (@LineTo R) ps) =
+  Some (mkCtx (cx_output c)
+              (cx_forward c ++ side_rest st (cx_join_thresh c) false (cx_last_pt c) (cx_last_tan c) ps)
+              (cx_backward c ++ side_rest st (cx_join_thresh c) true (cx_last_pt c) (cx_last_tan c) ps)
+              (cx_start_pt c) (cx_start_norm c) (cx_start_tan c)
+              (fst (last_state (cx_last_pt c) (cx_last_tan c) ps))
+              (snd (last_state (cx_last_pt c) (cx_last_tan c) ps)) (cx_join_thresh c)).
+Proof.
+  induction ps as [|p r IH]; intros c Hne.
+  - cbn. rewrite !app_nil_r. destruct c; reflexivity.
+  - cbn [map stroke_loop stroke_step side_rest last_state].
+    destruct (pt_neb p (cx_last_pt c)) eqn:En.
+    + rewrite pt_sub_vec, (line_step_nonempty st _ p c Hne). cbv zeta.
+      rewrite IH by (cbn; intros E; apply app_eq_nil in E; destruct E; contradiction).
+      cbn [cx_output cx_forward cx_backward cx_start_pt cx_start_norm cx_start_tan cx_last_pt cx_last_tan cx_join_thresh].
+      unfold side_join, sgn. fold w. rewrite <- !app_assoc. reflexivity.
+    + apply IH; exact Hne.
+Qed.
+
+Lemma lines_empty ps : forall c, cx_forward c = [] -> cx_backward c = [] ->
+  stroke_loop st c (map (@LineTo R) ps) =
+  Some (match first_edge (cx_last_pt c) ps with
+        | None => c
+        | Some (p1, r) =>
+            let t := vec (cx_last_pt c) p1 in
+            mkCtx (cx_output c)
+                  (side_path st (cx_join_thresh c) false (cx_last_pt c) ps)
+                  (side_path st (cx_join_thresh c) true (cx_last_pt c) ps)
+                  (cx_start_pt c) (left_norm w t) t
+                  (fst (last_state p1 t r)) (snd (last_state p1 t r)) (cx_join_thresh c)
+        end).
+Proof.
+  induction ps as [|p r IH]; intros c Ef Eb.
+  - reflexivity.
+  - cbn [map stroke_loop stroke_step side_path first_edge].
+    destruct (pt_neb p (cx_last_pt c)) eqn:En.
+    + rewrite pt_sub_vec, (line_step_empty st _ p c Ef Eb). fold w.
+      rewrite lines_nonempty by (cbn; discriminate).
+      cbn [cx_output cx_forward cx_backward cx_start_pt cx_start_norm cx_start_tan cx_last_pt cx_last_tan cx_join_thresh app].
+      unfold sgn. reflexivity.
+    + apply IH; assumption.
+Qed.
+
+Lemma last_end_side_rest th side ps : forall lp lt pre,
+  last_end pre = offs w (sgn side) lt lp ->
+  last_end (pre ++ side_rest st th side lp lt ps) =
+  offs w (sgn side) (snd (last_state lp lt ps)) (fst (last_state lp lt ps)).
+Proof.
+  induction ps as [|p r IH]; intros lp lt pre Hl.
+  - cbn. rewrite app_nil_r. exact Hl.
+  - cbn [side_rest last_state]. destruct (pt_neb p lp).
+    + set (q := offs (sk_width st) (sgn side) (vec lp p) p).
+      replace (pre ++ side_join st side lp lt th (vec lp p) ++ LineTo q :: side_rest st th side p (vec lp p) r)
+        with ((pre ++ side_join st side lp lt th (vec lp p) ++ [LineTo q]) ++ side_rest st th side p (vec lp p) r)
+        by (rewrite <- !app_assoc; reflexivity).
+      apply IH. rewrite !app_assoc, last_end_snoc. reflexivity.
+    + apply IH; exact Hl.
+Qed.
+
+Lemma last_end_side_path th side p0 ps p1 r : first_edge p0 ps = Some (p1, r) ->
+  last_end (side_path st th side p0 ps) =
+  offs w (sgn side) (snd (last_state p1 (vec p0 p1) r)) (fst (last_state p1 (vec p0 p1) r)).
+Proof.
+  induction ps as [|p q IH]; cbn [first_edge side_path]; [discriminate|].
+  destruct (pt_neb p p0).
+  - intros [= <- <-].
+    change (MoveTo (offs (sk_width st) (sgn side) (vec p0 p) p0)
+            :: LineTo (offs (sk_width st) (sgn side) (vec p0 p) p) :: side_rest st th side p (vec p0 p) q)
+      with ([MoveTo (offs (sk_width st) (sgn side) (vec p0 p) p0); LineTo (offs (sk_width st) (sgn side) (vec p0 p) p)]
+            ++ side_rest st th side p (vec p0 p) q).
+    apply last_end_side_rest. reflexivity.
+  - exact IH.
+Qed.
+
+Lemma side_path_nonempty th side p0 ps p1 r : first_edge p0 ps = Some (p1, r) -> side_path st th side p0 ps <> [].
+Proof.
+  induction ps as [|p q IH]; cbn [first_edge side_path]; [discriminate|].
+  destruct (pt_neb p p0); [discriminate | exact IH].
+Qed.
+
+Lemma side_path_none th side p0 ps : first_edge p0 ps = None -> side_path st th side p0 ps = [].
+Proof.
+  induction ps as [|p q IH]; cbn [first_edge side_path]; [reflexivity|].
+  destruct (pt_neb p p0); [discriminate | exact IH].
+Qed.
+
+Lemma stroke_loop_app (a b : list (PathEl R)) : forall c,
+  stroke_loop st c (a ++ b) = match stroke_loop st c a with Some c' => stroke_loop st c' b | None => None end.
+Proof.
+  induction a as [|e a IH]; intros c; cbn; [reflexivity|].
+  destruct (stroke_step st c e); [apply IH | reflexivity].
+Qed.
+
+(** the state after [MoveTo p0] at the very beginning *)
+Definition ctx_at (tol : R) (p0 : Point R) : StrokeCtx R :=
+  mkCtx [] [] [] p0 v_zero v_zero p0 v_zero (2 * tol / w).
+
+Lemma after_first_move tol p0 : stroke_step st (ctx_init st tol) (MoveTo p0) = Some (ctx_at tol p0).
+Proof. reflexivity. Qed.
+
+(** the state after the lines of a polyline that starts with MoveTo *)
+Definition polyline_ctx (tol : R) (p0 : Point R) (ps : list (Point R)) : StrokeCtx R :=
+  match first_edge p0 ps with
+  | None => ctx_at tol p0
+  | Some (p1, r) =>
+      let t := vec p0 p1 in
+      mkCtx [] (side_path st (2 * tol / w) false p0 ps) (side_path st (2 * tol / w) true p0 ps)
+            p0 (left_norm w t) t (fst (last_state p1 t r)) (snd (last_state p1 t r)) (2 * tol / w)
+  end.
+
+Lemma polyline_loop tol p0 ps :
+  stroke_loop st (ctx_init st tol) (MoveTo p0 :: map (@LineTo R) ps) = Some (polyline_ctx tol p0 ps).
+Proof.
+  cbn [stroke_loop]. rewrite after_first_move.
+  rewrite lines_empty by reflexivity. unfold polyline_ctx. cbn [ctx_at cx_last_pt].
+  destruct (first_edge p0 ps) as [[p1 r]|]; reflexivity.
+Qed.
+
+(** offset_sides: the forward path is the -w/2 offset, the backward path the +w/2 offset, of every edge,
+    on the same side for the whole sub-path *)
+Theorem offset_sides_thm tol p0 ps c :
+  stroke_loop st (ctx_init st tol) (MoveTo p0 :: map (@LineTo R) ps) = Some c ->
+  cx_forward c = side_path st (2 * tol / w) false p0 ps /\
+  cx_backward c = side_path st (2 * tol / w) true p0 ps /\ cx_output c = [].
+Proof.
+  rewrite polyline_loop. intros [= <-]. unfold polyline_ctx.
+  destruct (first_edge p0 ps) as [[p1 r]|] eqn:E; cbn; auto.
+  rewrite !side_path_none by exact E. auto.
+Qed.
+
+(** the whole outline of an open polyline: one contour *)
+Theorem open_polyline_outline_thm tol p0 ps :
+  stroke_undashed (MoveTo p0 :: map (@LineTo R) ps) st tol =
+  Some (match first_edge p0 ps with
+        | None => []
+        | Some (p1, r) =>
+            let t1 := vec p0 p1 in
+            let lp := fst (last_state p1 t1 r) in
+            let lt := snd (last_state p1 t1 r) in
+            side_path st (2 * tol / w) false p0 ps ++ end_cap_at st lp lt ++
+            extend_reversed (side_path st (2 * tol / w) true p0 ps) ++ start_cap_at st p0 t1
+        end).
+Proof.
+  unfold stroke_undashed. rewrite polyline_loop. unfold polyline_ctx.
+  destruct (first_edge p0 ps) as [[p1 r]|] eqn:E.
+  - cbv zeta. rewrite finish_nonempty by (cbn; eapply side_path_nonempty; eauto).
+    cbn [cx_output cx_forward cx_backward app].
+    rewrite end_cap_els_at, start_cap_els_at; cbn [cx_backward cx_last_pt cx_last_tan cx_start_pt cx_start_tan cx_start_norm]; try reflexivity.
+    apply (last_end_side_path _ true _ _ _ _ E).
+  - reflexivity.
+Qed.
+
+(** the whole outline of a closed polyline: two contours *)
+Theorem closed_polyline_outline_thm tol p0 ps :
+  stroke_undashed (MoveTo p0 :: map (@LineTo R) ps ++ [ClosePath]) st tol =
+  Some (match first_edge p0 (ps ++ [p0]) with
+        | None => []
+        | Some (p1, r) =>
+            let th := 2 * tol / w in
+            let t1 := vec p0 p1 in
+            let lp := fst (last_state p1 t1 r) in
+            let lt := snd (last_state p1 t1 r) in
+            let fwd := side_path st th false p0 (ps ++ [p0]) ++ side_join st false lp lt th t1 in
+            let bwd := side_path st th true p0 (ps ++ [p0]) ++ side_join st true lp lt th t1 in
+            fwd ++ [ClosePath] ++ [MoveTo (last_end bwd)] ++ extend_reversed bwd ++ [ClosePath]
+        end).
+Proof.
+  assert (Hloop : stroke_loop st (ctx_init st tol) (MoveTo p0 :: map (@LineTo R) ps ++ [ClosePath]) =
+                  Some (finish_closed st (polyline_ctx tol p0 (ps ++ [p0])))).
+  { change (MoveTo p0 :: map (@LineTo R) ps ++ [ClosePath]) with ((MoveTo p0 :: map (@LineTo R) ps) ++ [ClosePath]).
+    rewrite stroke_loop_app, polyline_loop. cbn [stroke_loop stroke_step].
+    f_equal. f_equal.
+    (* ClosePath behaves as LineTo start_pt *)
+    assert (Hsp : cx_start_pt (polyline_ctx tol p0 ps) = p0).
+    { unfold polyline_ctx. destruct (first_edge p0 ps) as [[? ?]|]; reflexivity. }
+    rewrite Hsp.
+    pose proof (polyline_loop tol p0 (ps ++ [p0])) as H1.
+    change (MoveTo p0 :: map (@LineTo R) (ps ++ [p0])) with ((MoveTo p0 :: map (@LineTo R) (ps ++ [p0]))) in H1.
+    rewrite map_app in H1. cbn [map] in H1.
+    change (MoveTo p0 :: map (@LineTo R) ps ++ [LineTo p0]) with ((MoveTo p0 :: map (@LineTo R) ps) ++ [LineTo p0]) in H1.
+    rewrite stroke_loop_app, polyline_loop in H1. cbn [stroke_loop stroke_step] in H1.
+    rewrite (pt_neb_sym p0) in H1.
+    destruct (pt_neb (cx_last_pt (polyline_ctx tol p0 ps)) p0) eqn:En; injection H1 as H1; exact H1. }
+  unfold stroke_undashed. rewrite Hloop. unfold polyline_ctx.
+  destruct (first_edge p0 (ps ++ [p0])) as [[p1 r]|] eqn:E.
+  - cbv zeta.
+    rewrite finish_closed_nonempty by (cbn; eapply side_path_nonempty; eauto). cbv zeta.
+    rewrite do_join_nonempty by (cbn; eapply side_path_nonempty; eauto). cbv zeta.
+    cbn [cx_output cx_forward cx_backward cx_start_pt cx_start_norm cx_start_tan cx_last_pt cx_last_tan cx_join_thresh app].
+    rewrite finish_empty by reflexivity. cbn [cx_output]. unfold side_join. reflexivity.
+  - rewrite finish_closed_empty by reflexivity. reflexivity.
+Qed.
+End Sides.
+
+(** ** a single segment *)
+Lemma pt_neb_of_neq (p q : Point R) : p <> q -> pt_neb p q = true.
+Proof.
+  intros Hn. destruct (pt_neb p q) eqn:E; [reflexivity|]. apply pt_neb_false_eq in E. contradiction.
+Qed.
+
+Lemma vec_nonzero (p q : Point R) : p <> q -> vnonzero (vec p q).
+Proof.
+  intros Hn. destruct p as [x y], q as [u v]. unfold vnonzero, vec; cbn.
+  destruct (Req_dec u x) as [->|]; [|left; lra]. destruct (Req_dec v y) as [->|]; [|right; lra].
+  exfalso; apply Hn; reflexivity.
+Qed.
+
+Theorem single_segment_butt_exact_thm st tol p0 p1 :
+  p1 <> p0 -> sk_start_cap st = CapButt -> sk_end_cap st = CapButt ->
+  let t := vec p0 p1 in let w := sk_width st in
+  stroke_undashed [MoveTo p0; LineTo p1] st tol =
+  Some [MoveTo (offs w (-1) t p0); LineTo (offs w (-1) t p1); LineTo (offs w 1 t p1); LineTo (offs w 1 t p0); ClosePath].
+Proof.
+  intros Hn Hs He. cbv zeta.
+  change [MoveTo p0; LineTo p1] with (MoveTo p0 :: map (@LineTo R) [p1]).
+  rewrite open_polyline_outline_thm. cbn [first_edge]. rewrite (pt_neb_of_neq p1 p0 Hn).
+  cbv zeta. cbn [last_state fst snd side_path side_rest]. rewrite (pt_neb_of_neq p1 p0 Hn).
+  unfold end_cap_at, start_cap_at. rewrite Hs, He. reflexivity.
+Qed.
+
+Theorem single_segment_square_exact_thm st tol p0 p1 :
+  p1 <> p0 -> sk_start_cap st = CapSquare -> sk_end_cap st = CapSquare ->
+  let t := vec p0 p1 in let w := sk_width st in
+  stroke_undashed [MoveTo p0; LineTo p1] st tol =
+  Some [MoveTo (offs w (-1) t p0); LineTo (offs w (-1) t p1);
+        LineTo (along (w / 2) t (offs w (-1) t p1)); LineTo (along (w / 2) t (offs w 1 t p1)); LineTo (offs w 1 t p1);
+        LineTo (offs w 1 t p0);
+        LineTo (along (- (w / 2)) t (offs w 1 t p0)); LineTo (along (- (w / 2)) t (offs w (-1) t p0)); ClosePath].
+Proof.
+  intros Hn Hs He. cbv zeta.
+  change [MoveTo p0; LineTo p1] with (MoveTo p0 :: map (@LineTo R) [p1]).
+  rewrite open_polyline_outline_thm. cbn [first_edge]. rewrite (pt_neb_of_neq p1 p0 Hn).
+  cbv zeta. cbn [last_state fst snd side_path side_rest]. rewrite (pt_neb_of_neq p1 p0 Hn).
+  unfold end_cap_at, start_cap_at. rewrite Hs, He. rewrite square_cap_end, square_cap_start. reflexivity.
+Qed.
+
+(** the butt rectangle is traversed with positive orientation: twice its signed area is 2 * width * length *)
+Lemma single_segment_orientation w t p0 p1 : t = vec p0 p1 -> vnonzero t ->
+  shoelace2 [offs w (-1) t p0; offs w (-1) t p1; offs w 1 t p1; offs w 1 t p0] = 2 * (w * vlen t).
+Proof.
+  intros Ht Hn. pose proof (vlen_pos t Hn) as Hl. pose proof (vlen_sq t) as Hq. subst t.
+  destruct p0 as [x y], p1 as [u v]. unfold shoelace2, shoelace_from, offs, vec in *. cbn [px py vx vy] in *.
+  set (l := vlen _) in *.
+  match goal with |- ?lhs = _ =>
+    replace lhs with (2 * w * (((u - x) * (u - x) + (v - y) * (v - y)) / l)) by (field; lra)
+  end.
+  rewrite <- Hq. field. lra.
+Qed.
+
+(** ** joins: threshold, outer side, miter point *)
+Lemma Rltb_t a b : a < b -> Rltb a b = true. Proof. apply Rltb_true. Qed.
+Lemma Rltb_f a b : b <= a -> Rltb a b = false. Proof. apply Rltb_false. Qed.
+Lemma Rleb_t a b : a <= b -> Rleb a b = true. Proof. apply Rleb_true. Qed.
+Lemma Rleb_f a b : b < a -> Rleb a b = false. Proof. apply Rleb_false. Qed.
+
+Section Joins.
+Variable st : StrokeStyle R.
+Variables (p0 : Point R) (ab cd : Vec2 R) (th : R).
+Let w := sk_width st.
+Let X := rcross ab cd.
+Let D := rdot ab cd.
+Let Hy := sqrt (X * X + D * D).
+Let j := join_els st p0 ab th cd.
+
+(** nothing is added when the turn is below the join threshold *)
+Theorem join_skipped_thm : 0 < D -> Rabs X < Hy * th -> j = ([], [], 0%Z).
+Proof.
+  intros HD HX. unfold j. rewrite join_els_spec. cbv zeta. fold X D Hy.
+  rewrite (Rleb_f D 0 HD), (Rleb_f _ _ HX). reflexivity.
+Qed.
+
+
+Lemma emitted_test : emitted ab cd th -> Rleb D 0 || Rleb (Hy * th) (Rabs X) = true.
+Proof. unfold emitted. fold X D Hy. intros [H|H]; [rewrite (Rleb_t _ _ H); reflexivity | rewrite (Rleb_t _ _ H); apply orb_true_r]. Qed.
+
+Lemma join_emitted : emitted ab cd th ->
+  j = (piv_f st p0 X ++ fst (fst (join_core st p0 ab cd)), piv_b st p0 X ++ snd (fst (join_core st p0 ab cd)),
+       snd (join_core st p0 ab cd)).
+Proof. intros He. unfold j. rewrite join_els_spec. cbv zeta. fold X D Hy. rewrite (emitted_test He). reflexivity. Qed.
+
+(** bevel: one line to the new offset point on each side (after the pivot on the inner side, if enabled) *)
+Theorem bevel_join_thm : emitted ab cd th -> sk_join st = JoinBevel ->
+  fst (fst j) = piv_f st p0 X ++ [LineTo (offs w (-1) cd p0)] /\
+  snd (fst j) = piv_b st p0 X ++ [LineTo (offs w 1 cd p0)].
+Proof. intros He Hj. rewrite (join_emitted He). unfold join_core. rewrite Hj. cbn [fst snd]. auto. Qed.
+
+(** miter, left turn: the miter point goes to the forward path (outer side), it lies on both forward offset
+    lines and within miter_limit * w/2 of the vertex; the backward path gets the plain line *)
+Theorem miter_left_thm : emitted ab cd th -> sk_join st = JoinMiter -> vnonzero ab -> vnonzero cd -> 0 < w ->
+  2 * Hy < (Hy + D) * (sk_miter_limit st * sk_miter_limit st) -> 0 < X ->
+  let M := miter_pt w (-1) p0 ab cd in
+  fst (fst j) = [LineTo M; LineTo (offs w (-1) cd p0)] /\
+  snd (fst j) = piv_b st p0 X ++ [LineTo (offs w 1 cd p0)] /\
+  rcross ab (vec (offs w (-1) ab p0) M) = 0 /\ rcross cd (vec (offs w (-1) cd p0) M) = 0 /\
+  dist2 M p0 < (w / 2) * (w / 2) * (sk_miter_limit st * sk_miter_limit st).
+Proof.
+  intros He Hj Ha Hc Hw Hlim HX. cbv zeta.
+  rewrite (join_emitted He). unfold join_core. rewrite Hj. cbv zeta. fold X D Hy w.
+  rewrite (Rltb_t _ _ Hlim), (Rltb_t _ _ HX). cbn [fst snd].
+  assert (Hx0 : rcross ab cd <> 0) by (fold X; lra).
+  destruct (miter_on_lines w (-1) p0 ab cd Ha Hc Hx0) as [L1 L2].
+  repeat split; auto.
+  - unfold piv_f. rewrite (Rltb_t _ _ HX). destruct (sk_inner_pivot st); reflexivity.
+  - unfold Hy, X, D in Hlim. rewrite hyp_is_product in Hlim.
+    destruct (miter_within_limit w (-1) p0 ab cd (sk_miter_limit st) Ha Hc Hx0 ltac:(ring) Hlim); [assumption|lra].
+Qed.
+
+(** miter, right turn: mirrored — the miter point goes to the backward path *)
+Theorem miter_right_thm : emitted ab cd th -> sk_join st = JoinMiter -> vnonzero ab -> vnonzero cd -> 0 < w ->
+  2 * Hy < (Hy + D) * (sk_miter_limit st * sk_miter_limit st) -> X < 0 ->
+  let M := miter_pt w 1 p0 ab cd in
+  fst (fst j) = piv_f st p0 X ++ [LineTo (offs w (-1) cd p0)] /\
+  snd (fst j) = [LineTo M; LineTo (offs w 1 cd p0)] /\
+  rcross ab (vec (offs w 1 ab p0) M) = 0 /\ rcross cd (vec (offs w 1 cd p0) M) = 0 /\
+  dist2 M p0 < (w / 2) * (w / 2) * (sk_miter_limit st * sk_miter_limit st).
+Proof.
+  intros He Hj Ha Hc Hw Hlim HX. cbv zeta.
+  rewrite (join_emitted He). unfold join_core. rewrite Hj. cbv zeta. fold X D Hy w.
+  rewrite (Rltb_t _ _ Hlim), (Rltb_f 0 X ltac:(lra)), (Rltb_t _ _ HX). cbn [fst snd].
+  assert (Hx0 : rcross ab cd <> 0) by (fold X; lra).
+  destruct (miter_on_lines w 1 p0 ab cd Ha Hc Hx0) as [L1 L2].
+  repeat split; auto.
+  - unfold piv_b. rewrite (Rltb_f 0 X ltac:(lra)). destruct (sk_inner_pivot st); reflexivity.
+  - unfold Hy, X, D in Hlim. rewrite hyp_is_product in Hlim.
+    destruct (miter_within_limit w 1 p0 ab cd (sk_miter_limit st) Ha Hc Hx0 ltac:(ring) Hlim); [assumption|lra].
+Qed.
+
+(** miter beyond the limit (or a straight/reversing turn): bevel *)
+Theorem miter_fallback_thm : emitted ab cd th -> sk_join st = JoinMiter ->
+  ~ (2 * Hy < (Hy + D) * (sk_miter_limit st * sk_miter_limit st)) \/ X = 0 ->
+  fst (fst j) = piv_f st p0 X ++ [LineTo (offs w (-1) cd p0)] /\
+  snd (fst j) = piv_b st p0 X ++ [LineTo (offs w 1 cd p0)].
+Proof.
+  intros He Hj Hc. rewrite (join_emitted He). unfold join_core. rewrite Hj. cbv zeta. fold X D Hy w.
+  destruct (Rltb_spec (2 * Hy) ((Hy + D) * (sk_miter_limit st * sk_miter_limit st))) as [Hl|Hl].
+  - destruct Hc as [Hc|Hc]; [contradiction|].
+    rewrite (Rltb_f 0 X ltac:(lra)), (Rltb_f X 0 ltac:(lra)). cbn [fst snd]. auto.
+  - cbn [fst snd]. auto.
+Qed.
+
+(** which side is outer: for a left turn (cross > 0) the new forward offset point lies ahead of the old one
+    along the incoming direction (a gap to fill) and the new backward one behind it (overlap); mirrored
+    for a right turn. The inner-side pivot, when enabled, goes to the other side than the miter point. *)
+Theorem join_outer_side_thm : vnonzero ab -> vnonzero cd -> 0 < w ->
+  (0 < X ->
+     0 < rdot ab (vec (offs w (-1) ab p0) (offs w (-1) cd p0)) /\
+     rdot ab (vec (offs w 1 ab p0) (offs w 1 cd p0)) < 0 /\
+     piv_f st p0 X = [] /\ piv_b st p0 X = (if sk_inner_pivot st then [LineTo p0] else [])) /\
+  (X < 0 ->
+     rdot ab (vec (offs w (-1) ab p0) (offs w (-1) cd p0)) < 0 /\
+     0 < rdot ab (vec (offs w 1 ab p0) (offs w 1 cd p0)) /\
+     piv_b st p0 X = [] /\ piv_f st p0 X = (if sk_inner_pivot st then [LineTo p0] else [])) /\
+  (X = 0 -> piv_f st p0 X = [] /\ piv_b st p0 X = []).
+Proof.
+  intros Ha Hc Hw. pose proof (vlen_pos cd Hc) as Lc.
+  rewrite !offset_gap by assumption. fold X.
+  assert (Hq : forall s, - s * (w / 2) * X / vlen cd = (- s * (w / 2) * X) * / vlen cd) by (intros; reflexivity).
+  assert (Hi : 0 < / vlen cd) by (apply Rinv_0_lt_compat; exact Lc).
+  set (i := / vlen cd) in *.
+  split; [|split]; intros HX; unfold piv_f, piv_b.
+  - rewrite (Rltb_t _ _ HX). assert (0 < (w / 2) * X * i) by (apply Rmult_lt_0_compat; nra).
+    repeat split; try (rewrite Hq; nra); destruct (sk_inner_pivot st); reflexivity.
+  - rewrite (Rltb_f 0 X ltac:(lra)), (Rltb_t _ _ HX).
+    assert (0 < (w / 2) * (- X) * i) by (apply Rmult_lt_0_compat; nra).
+    repeat split; try (rewrite Hq; nra); destruct (sk_inner_pivot st); reflexivity.
+  - rewrite (Rltb_f 0 X ltac:(lra)), (Rltb_f X 0 ltac:(lra)). destruct (sk_inner_pivot st); auto.
+Qed.
+End Joins.
+
+(** ** caps: where the cap points are *)
+Section Caps.
+Variable st : StrokeStyle R.
+Let w := sk_width st.
+Variables (p : Point R) (t : Vec2 R).
+Hypothesis Ht : vnonzero t.
+Hypothesis Hw : 0 < w.
+
+(** butt: the end is cut straight across, from the forward offset point to the backward one, both at w/2 *)
+Theorem butt_cap_thm :
+  (sk_end_cap st = CapButt -> end_cap_at st p t = [LineTo (offs w 1 t p)]) /\
+  (sk_start_cap st = CapButt -> start_cap_at st p t = [ClosePath]) /\
+  dist2 (offs w 1 t p) p = (w / 2) * (w / 2) /\ dist2 (offs w (-1) t p) p = (w / 2) * (w / 2) /\
+  rdot (vec p (offs w 1 t p)) t = 0 /\ rdot (vec p (offs w (-1) t p)) t = 0 /\
+  0 < rcross t (vec p (offs w 1 t p)) /\ rcross t (vec p (offs w (-1) t p)) < 0.
+Proof.
+  pose proof (vlen_pos t Ht) as Hl.
+  repeat split.
+  - intros E. unfold end_cap_at. rewrite E. reflexivity.
+  - intros E. unfold start_cap_at. rewrite E. reflexivity.
+  - apply offs_dist; [exact Ht | ring].
+  - apply offs_dist; [exact Ht | ring].
+  - apply offs_perp; exact Ht.
+  - apply offs_perp; exact Ht.
+  - rewrite offs_side by exact Ht. apply Rmult_lt_0_compat; nra.
+  - rewrite offs_side by exact Ht. assert (0 < (w / 2) * vlen t) by (apply Rmult_lt_0_compat; nra). nra.
+Qed.
+
+(** square, at the end of the sub-path: two corners at distance sqrt 2 * w/2 from the end point, both
+    beyond it (positive component w/2 along the tangent), then back to the backward offset point *)
+Theorem square_end_cap_thm : sk_end_cap st = CapSquare ->
+  let q1 := along (w / 2) t (offs w (-1) t p) in
+  let q2 := along (w / 2) t (offs w 1 t p) in
+  end_cap_at st p t = [LineTo q1; LineTo q2; LineTo (offs w 1 t p)] /\
+  dist2 q1 p = 2 * ((w / 2) * (w / 2)) /\ dist2 q2 p = 2 * ((w / 2) * (w / 2)) /\
+  rdot (vec p q1) t = (w / 2) * vlen t /\ rdot (vec p q2) t = (w / 2) * vlen t /\ 0 < (w / 2) * vlen t.
+Proof.
+  intros E. cbv zeta. pose proof (vlen_pos t Ht) as Hl.
+  repeat split.
+  - unfold end_cap_at. rewrite E. apply square_cap_end.
+  - rewrite along_offs_dist; [ring | exact Ht | ring].
+  - rewrite along_offs_dist; [ring | exact Ht | ring].
+  - rewrite along_dot, offs_perp by exact Ht. ring.
+  - rewrite along_dot, offs_perp by exact Ht. ring.
+  - apply Rmult_lt_0_compat; nra.
+Qed.
+
+(** square, at the start: the mirror image — both corners lie before the start point *)
+Theorem square_start_cap_thm : sk_start_cap st = CapSquare ->
+  let r1 := along (- (w / 2)) t (offs w 1 t p) in
+  let r2 := along (- (w / 2)) t (offs w (-1) t p) in
+  start_cap_at st p t = [LineTo r1; LineTo r2; ClosePath] /\
+  dist2 r1 p = 2 * ((w / 2) * (w / 2)) /\ dist2 r2 p = 2 * ((w / 2) * (w / 2)) /\
+  rdot (vec p r1) t = - ((w / 2) * vlen t) /\ rdot (vec p r2) t = - ((w / 2) * vlen t).
+Proof.
+  intros E. cbv zeta.
+  repeat split.
+  - unfold start_cap_at. rewrite E. apply square_cap_start.
+  - rewrite along_offs_dist; [ring | exact Ht | ring].
+  - rewrite along_offs_dist; [ring | exact Ht | ring].
+  - rewrite along_dot, offs_perp by exact Ht. ring.
+  - rewrite along_dot, offs_perp by exact Ht. ring.
+Qed.
+End Caps.
+
+(** ** number of contours *)
+Lemma n_contours_app {T} `{Scalar T} (a b : list (PathEl T)) : n_contours (a ++ b) = (n_contours a + n_contours b)%nat.
+Proof. unfold n_contours. rewrite filter_app, app_length. reflexivity. Qed.
+
+Lemma n_contours_segs {T} `{Scalar T} (l : list (PathEl T)) : Forall is_seg l -> n_contours l = 0%nat.
+Proof.
+  induction 1 as [|e l He Hl IH]; [reflexivity|].
+  unfold n_contours in *. cbn. destruct e; cbn in *; try contradiction; exact IH.
+Qed.
+
+Section Count.
+Variable st : StrokeStyle R.
+
+Lemma side_join_segs side p0 ab th cd : Forall (@is_seg R) (side_join st side p0 ab th cd).
+Proof. unfold side_join. destruct (join_els_segs st p0 ab th cd). destruct side; assumption. Qed.
+
+Lemma side_rest_segs th side ps : forall lp lt, Forall (@is_seg R) (side_rest st th side lp lt ps).
+Proof.
+  induction ps as [|p r IH]; intros lp lt; cbn [side_rest]; [constructor|].
+  destruct (pt_neb p lp); [|apply IH].
+  apply Forall_app_intro; [apply side_join_segs|]. constructor; [exact I | apply IH].
+Qed.
+
+Lemma side_path_contours th side p0 ps p1 r : first_edge p0 ps = Some (p1, r) ->
+  n_contours (side_path st th side p0 ps) = 1%nat.
+Proof.
+  induction ps as [|p q IH]; cbn [first_edge side_path]; [discriminate|].
+  destruct (pt_neb p p0); [|exact IH]. intros _.
+  change (MoveTo ?a :: ?l) with ([MoveTo a] ++ l). rewrite n_contours_app.
+  rewrite (n_contours_segs (LineTo _ :: _)); [reflexivity|].
+  constructor; [exact I | apply side_rest_segs].
+Qed.
+
+Lemma end_cap_at_segs p t : Forall (@is_seg R) (end_cap_at st p t).
+Proof.
+  unfold end_cap_at. destruct (sk_end_cap st);
+    [repeat constructor | apply square_cap_false_segs | apply round_join_segs].
+Qed.
+
+Lemma start_cap_at_contours p t : n_contours (start_cap_at st p t) = 0%nat.
+Proof.
+  unfold start_cap_at. destruct (sk_start_cap st); try reflexivity.
+  apply n_contours_segs. apply round_join_segs.
+Qed.
+
+Lemma first_edge_some p0 ps : (exists p, In p ps /\ p <> p0) -> exists p1 r, first_edge p0 ps = Some (p1, r).
+Proof.
+  induction ps as [|q ps IH]; intros (p & Hin & Hn); [destruct Hin|].
+  cbn [first_edge]. destruct (pt_neb q p0) eqn:E; [eauto|].
+  apply IH. destruct Hin as [<-|Hin]; [|eauto].
+  apply pt_neb_false_eq in E. contradiction.
+Qed.
+
+Lemma first_edge_none p0 ps : (forall p, In p ps -> p = p0) -> first_edge p0 ps = None.
+Proof.
+  induction ps as [|q ps IH]; intros Hall; [reflexivity|].
+  cbn [first_edge]. rewrite (Hall q (or_introl eq_refl)).
+  assert (E : pt_neb p0 p0 = false).
+  { unfold pt_neb, pt_eqb. destruct p0 as [x y]; cbn [px py feqb RS]. apply negb_false_iff, andb_true_iff; split; apply Reqb_true; reflexivity. }
+  rewrite E. apply IH. intros; apply Hall; right; assumption.
+Qed.
+
+(** an open sub-path with at least one non-degenerate segment gives exactly one contour; none otherwise *)
+Theorem open_subpath_one_contour_thm tol p0 ps out :
+  stroke_undashed (MoveTo p0 :: map (@LineTo R) ps) st tol = Some out ->
+  ((exists p, In p ps /\ p <> p0) -> n_contours out = 1%nat) /\
+  ((forall p, In p ps -> p = p0) -> out = []).
+Proof.
+  rewrite open_polyline_outline_thm. intros [= <-]. split.
+  - intros He. destruct (first_edge_some p0 ps He) as (p1 & r & E). rewrite E. cbv zeta.
+    rewrite !n_contours_app, (side_path_contours _ false _ _ _ _ E).
+    rewrite (n_contours_segs (end_cap_at _ _ _)) by apply end_cap_at_segs.
+    rewrite (n_contours_segs (extend_reversed _)) by apply extend_reversed_segs.
+    rewrite start_cap_at_contours. reflexivity.
+  - intros Ha. rewrite (first_edge_none p0 ps Ha). reflexivity.
+Qed.
+
+(** a closed sub-path gives exactly two: the forward path closed, and the backward path reversed and closed *)
+Theorem closed_subpath_two_contours_thm tol p0 ps out :
+  stroke_undashed (MoveTo p0 :: map (@LineTo R) ps ++ [ClosePath]) st tol = Some out ->
+  ((exists p, In p ps /\ p <> p0) -> n_contours out = 2%nat) /\
+  ((forall p, In p ps -> p = p0) -> out = []).
+Proof.
+  rewrite closed_polyline_outline_thm. intros [= <-]. split.
+  - intros (p & Hin & Hn).
+    destruct (first_edge_some p0 (ps ++ [p0])) as (p1 & r & E).
+    { exists p. split; [apply in_or_app; left; exact Hin | exact Hn]. }
+    rewrite E. cbv zeta.
+    rewrite !n_contours_app, (side_path_contours _ false _ _ _ _ E).
+    match goal with |- context [join_els st ?a ?b ?c ?d] => destruct (join_els_segs st a b c d) as [Jf Jb] end.
+    rewrite (n_contours_segs _ Jf).
+    match goal with |- context [ClosePath :: MoveTo ?x :: ?l] =>
+      change (ClosePath :: MoveTo x :: l) with ([ClosePath; MoveTo x] ++ l) end.
+    rewrite !n_contours_app.
+    rewrite (n_contours_segs (extend_reversed _)) by apply extend_reversed_segs.
+    reflexivity.
+  - intros Ha. rewrite (first_edge_none p0 (ps ++ [p0])); [reflexivity|].
+    intros q Hq. apply in_app_or in Hq. destruct Hq as [Hq|[<-|[]]]; [apply Ha; exact Hq | reflexivity].
+Qed.
+End Count.
